@@ -2,7 +2,8 @@ import PprofVerif.Model.MapRange
 /-!
 # Hand-reviewed map-iteration sites (property C08)
 
-Every `range` over a map in internal/graph, internal/report, internal/driver whose body appends to
+Every `range` over a map (and every slices.Collect(maps.Keys/Values)) in internal/graph, internal/report,
+internal/driver and profile whose body appends to
 a slice, writes output, concatenates a string, accumulates a float or returns an iteration value —
 as listed by `tools/extract/mapranges.go` — with the reviewer's verdict.  `Props/C08.lean` checks
 by `decide` that every site regenerated from the current source is either SELF-EVIDENT — an `append`
@@ -69,7 +70,17 @@ def reviewed : List Reviewed := [
   { site := { file := "internal/graph/graph.go", fn := "Graph.TrimTree", kind := .pick, sink := "pick:assign", sorted := false, total := false, returned := false },
     verdict := .orderIrrelevant "the parent of a tree node: cur.In has exactly one entry here (len checked just above, panics otherwise)" },
   { site := { file := "internal/driver/cli.go", fn := "outputFormat", kind := .pick, sink := "pick:assign", sorted := false, total := false, returned := false },
-    verdict := .orderIrrelevant "the selected output format: a second selected entry is an error whatever the order, so at most one entry ever assigns" }
+    verdict := .orderIrrelevant "the selected output format: a second selected entry is an error whatever the order, so at most one entry ever assigns" },
+  -- pick:first-element — s[0] of a slice collected in a map walk, read before any sort
+  { site := { file := "internal/driver/cli.go", fn := "installConfigFlags", kind := .pick, sink := "pick:first-element", sorted := false, total := false, returned := false },
+    verdict := .orderIrrelevant "set[0] is read only in the branch len(set) == 1" },
+  { site := { file := "internal/driver/interactive.go", fn := "matchVariableOrCommand", kind := .pick, sink := "pick:first-element", sorted := false, total := false, returned := false },
+    verdict := .orderIrrelevant "matches[0] is returned only when len(matches) == 1" },
+  -- package profile (analysed since the seeded change C08-q: label keys feeding the merge key)
+  { site := { file := "profile/filter.go", fn := "Profile.FilterTagsByName", kind := .delete, sink := "delete (from the ranged map)", sorted := false, total := false, returned := false },
+    verdict := .orderIrrelevant "a label is removed iff its own key matches the regexps" },
+  { site := { file := "profile/legacy_profile.go", fn := "cpuProfile", kind := .append, sink := "append", sorted := false, total := false, returned := false },
+    verdict := .orderIrrelevant "cleanupDuplicateLocations: strips the second frame that occurs in at least N - N/32 of the N samples; the counts sum to at most N, so at most one address can qualify and the break takes that one" }
 ]
 
 def sites : List Site := reviewed.map (·.site)
